@@ -15,6 +15,8 @@ UNITS = {
             ('schemas_replaces_components', 'definition .components .get_or_insert(Default::default()) .schemas = components.schemas;',
              'definition.components = Some(components);', ['C14.components.frame']),
             ('paths_not_replaced', 'definition.paths = paths;', '', ['C14.paths']),
+            ('cli_base_not_applied', 'builder = builder.with_base(base);', '', ['C14.cli']),
+            ('cli_writes_default_document', 'let api = builder.into_openapi();', 'let api = oal_openapi::Builder::new(proc.eval(&mods)?).into_openapi();', ['C14.cli']),
         ],
     },
 }
@@ -349,7 +351,7 @@ PROPS = {
         'level_text': 'Deductive proof (Verus/Z3), for every base document and every program: the three real Builder methods are '
                       'verified against a per-field frame contract; field lists are regenerated from the vendored openapiv3 source each run.',
         'level_note': 'Trusted: all_paths/all_components/default_base are functions of self.spec only (uninterpreted contracts + token scan A1); '
-                      'Components::default() is a constant; the CLI glue that parses the base file and calls with_base; serde_yaml.',
+                      'Components::default() is a constant; in the CLI glue (run, verified) the file system / Config / Processor / serde_yaml calls are opaque shims; IndexMap method shims.',
         'design_ref': 'DESIGN.md section 5, C14',
         'explanation': 'Frame contract on the real Builder::{new,with_base,into_openapi}: every field of the OpenAPI object '
                        'and of Components (field lists generated from the vendored openapiv3 source on each run) other than '
@@ -357,7 +359,8 @@ PROPS = {
         'assumptions': [
             'all_paths / all_components / default_base are deterministic functions of self.spec (uninterpreted contracts); '
             'that no helper of impl Builder mentions `base` is checked by token scan A1, not deductively',
-            'oal-cli.rs feeds the parsed base file to with_base (4 lines of glue, external I/O, not verified)',
+            'oal-cli.rs run() is verified too: on success the text written to the target is the YAML of the builder output for the base parsed from the configured file; '
+            'the file system, Config getters, Processor::load/eval and serde_yaml are shims with uninterpreted results',
             'serde_yaml (de)serialisation of the base file is outside the contract',
         ],
         'not_decided': [],
